@@ -105,8 +105,19 @@ def switch_info(body, b):
         if otherwise is not None:
             # the otherwise block may be unreachable; still describe
             by_t.setdefault(otherwise, set()).update(rest if rest else set())
+        # `?` operator: switch over ControlFlow of Try::branch(X): Continue <=> X is Some/Ok, Break <=> None/Err
+        inner = None
+        if subj[0] == "call" and isinstance(subj[1], str) and re.search(r"Try>?::branch$", subj[1]) and subj[3]:
+            inner = strip(subj[3][0], through_calls=False)
+            is_opt = "option::Option" in ((subj[2] or "") + subj[1]) or (inner[0] == "call" and "Option" in (inner[2] or ""))
         for bb, vs in by_t.items():
             facts = [("variant", subj, frozenset(vs))]
+            if inner is not None and len(vs) == 1:
+                v0 = next(iter(vs))
+                if v0 == "Continue":
+                    facts.append(("variant", inner, frozenset(["Some"] if is_opt else ["Ok"])))
+                elif v0 == "Break":
+                    facts.append(("variant", inner, frozenset(["None"] if is_opt else ["Err"])))
             # Ordering from cmp
             ab = _is_cmp_call(strip(body.expr_of_place(disc["place"]), through_calls=False))
             if ab and len(vs) == 1:
